@@ -160,6 +160,46 @@ fn main() {
             } }
         }
     }
+    if which == "all" || which == "C16" {
+        use coap_lite::link_format::LinkFormatWrite;
+        // values: every string up to length 3 over structural characters and a two-byte character, plus longer samples
+        let mut values = strings(&["\"", "\\", ",", ";", "<", ">", " ", "\n", "a", "\u{e9}", "="], 3);
+        values.push("x\\\"y,;<> \n\u{1F600}=\\".to_string());
+        let plain = ["", "a", "ab=c", "\u{e9}x", "a b"];
+        let targets = ["", "/", "/a/b", "a,b;c\"d e", "\u{e9}<"];
+        for newlines in [false, true] {
+            // (1) one link, one quoted attribute, every value
+            for v in &values { for t in &targets {
+                let mut text = String::new();
+                { let mut w = LinkFormatWrite::new(&mut text); w.set_add_newlines(newlines); let _ = w.link(t).attr_quoted("k", v).finish(); let _ = w.finish(); }
+                let got: Vec<(String, Vec<(String, String)>)> = LinkFormatParser::new(&text).map(|r| match r { Ok((l, a)) => (l.to_string(), a.map(|(k, u)| (k.to_string(), u.to_string())).collect()), Err(_) => ("<error>".into(), vec![]) }).collect();
+                let want = vec![(t.to_string(), vec![("k".to_string(), v.clone())])];
+                if got != want { found("link-format-roundtrip", format!("newlines={} link {:?} attr_quoted(k, {:?}) wrote {:?} parsed {:?}", newlines, t, v, text, got)); }
+            } }
+            // (2) several links with all three writer methods
+            for n_links in 0..4usize { for n_attrs in 0..4usize {
+                let mut text = String::new();
+                let mut want = vec![];
+                { let mut w = LinkFormatWrite::new(&mut text); w.set_add_newlines(newlines);
+                  for i in 0..n_links {
+                    let t = targets[(i + n_attrs) % targets.len()];
+                    let mut a = w.link(t); let mut wa = vec![];
+                    for j in 0..n_attrs {
+                        let key = ["rt", "if", "sz", "x"][j];
+                        match (i + j) % 3 {
+                            0 => { let v = &values[(7 * i + 13 * j + 5) % values.len()]; a = a.attr_quoted(key, v); wa.push((key.to_string(), v.clone())); }
+                            1 => { let v = plain[(i + j) % plain.len()]; a = a.attr(key, v); wa.push((key.to_string(), v.to_string())); }
+                            _ => { let v = [0u32, 7, 40, 4294967295][(i + j) % 4]; a = a.attr_u32(key, v); wa.push((key.to_string(), v.to_string())); }
+                        }
+                    }
+                    let _ = a.finish(); want.push((t.to_string(), wa));
+                  }
+                  let _ = w.finish(); }
+                let got: Vec<(String, Vec<(String, String)>)> = LinkFormatParser::new(&text).map(|r| match r { Ok((l, a)) => (l.to_string(), a.map(|(k, u)| (k.to_string(), u.to_string())).collect()), Err(_) => ("<error>".into(), vec![]) }).collect();
+                if got != want { found("link-format-roundtrip", format!("newlines={} {} links x {} attrs: wrote {:?} parsed {:?} expected {:?}", newlines, n_links, n_attrs, text, got, want)); }
+            } }
+        }
+    }
     if which == "all" || which == "C19" {
         for s in strings(&["/", "a", "b\u{e9}"], 5) { for prior in [None, Some(""), Some("/"), Some("a"), Some("/a"), Some("a/"), Some("//")] {
             let mut req: CoapRequest<&'static str> = CoapRequest::new();
